@@ -20,6 +20,12 @@ CHECKS = {
             'parsed document is the same at every indent, decoded value re-encodes',
             'trusts Python json and expat as the independent readers; XER strings restricted to XML 1.0 Char',
             'property-based testing (Hypothesis), round-trip + metamorphic (indent) oracle, independent parsers'),
+    'C13': ('hypothesis stateful', 'exploration',
+            'Hypothesis rule-based state machine over one parsed dictionary: histories of up to 6 compile_dict calls '
+            '(8 codecs x numeric_enums) interleaved with eval(pformat(d)), deepcopy and pre_process_dict; after every '
+            'compile every object compiled so far must behave like a fresh compile_string on a probe set',
+            'behaviour is observed on generated probe values (encode bytes / error text, decode value, truncated decode)',
+            'stateful property-based testing (Hypothesis RuleBasedStateMachine), differential against a fresh compile'),
     'C15': ('hypothesis', 'exploration',
             'generated modules x values, ber/der: decode_with_length(m+tail) == (decode(m), len(m)); '
             'decode_length on every prefix of the header region == len(m) iff the prefix holds the complete '
